@@ -36,6 +36,7 @@ func (c07) Batches(tier string, seed uint64) []core.Batch {
 	b = append(b, spread("raw", 8, tierN(tier, 6000, 50000))...)
 	b = append(b, spread("huge", tierN(tier, 1, 4), 1)...)
 	b = append(b, spread("corpus", 4, 0)...) // this machine's dpkg database, in slices of 40 stanzas
+	b = append(b, core.Batch{Name: "volume", N: tierN(tier, 400_000, 1_500_000)}) // one case, one process: see volume.go
 	return append(b, conc(tierN(tier, 40, 300), "doc")...)
 }
 
@@ -43,7 +44,7 @@ func (c07) Mandatory(tier string) []string {
 	return []string{"doc:comment-between-continuations", "doc:crlf-blank-separator", "doc:empty-first-line", "doc:no-final-newline-after-continuation", "doc:dot-line",
 		"doc:tab-marker", "doc:line>=4096-bytes", "doc:free-standing-comment-block", "doc:blank-run>=2", "doc:leading-blank-lines", "doc:zero-paragraphs", "doc:mixed-line-endings", "doc:indented-continuation",
 		"path:Next", "path:All", "path:Unmarshal-slice", "path:Decoder.Decode", "path:Unmarshal-typed-slice", "path:Decoder.Decode-typed", "doc:stream>=36MiB", "reader:string", "reader:onebyte", "reader:half", "reader:chunks", "reader:data+EOF", "reader:fails-once-mid-stream",
-		"inv:paragraph-returned"} // ("inv:error-returned" is evidence only: a reader may be as lenient as it likes about malformed lines)
+		"inv:paragraph-returned", "volume:different-field-names-read-in-one-process"} // ("inv:error-returned" is evidence only: a reader may be as lenient as it likes about malformed lines)
 }
 
 type chunkReader struct {
@@ -615,6 +616,10 @@ func (p c07) RunBatch(t *core.T, b core.Batch) {
 	}
 	r := t.Rand(b.Name, fmt.Sprint(b.Arg))
 	switch b.Name {
+	case "volume":
+		in := volInput(r.U64(), b.N)
+		vc, _ := volDecode(in)
+		t.Case("volume", in, func(c *core.C) { volumeFields(c, t, vc) })
 	case "corpus":
 		st := corpusStanzas()
 		if len(st) == 0 {
@@ -671,6 +676,10 @@ func (p c07) RunBatch(t *core.T, b core.Batch) {
 
 func (p c07) RunCase(t *core.T, kind string, input []byte) {
 	switch kind {
+	case "volume":
+		if vc, ok := volDecode(input); ok {
+			t.Case(kind, input, func(c *core.C) { volumeFields(c, t, vc) })
+		}
 	case "doc":
 		var cs struct {
 			Doc  model.Doc `json:"doc"`
